@@ -863,3 +863,12 @@ package process
 //@   callsite[C07] C07.cutCont process.Form.typecheckForm#4: arg0 == p.continuation_e && arg2 == providerShadowName && arg3 == providerType && arg1[p.new_name_c.Ident].Type == p.new_name_c.Type
 
 
+
+// ---------------------------------------------------------------------------------------------
+// C13: access discipline of the interpreter. The debug counters are touched through sync/atomic only (the functions
+// below run before any process goroutine exists); a process handed to a new goroutine is not used again by the
+// goroutine that handed it over (SpawnThenTransition/SpawnThenTransitionNP start the goroutine on their receiver).
+//@ discipline C13
+//@ atomicinit NewRuntimeEnvironment InitializeProcesses
+//@ moves (*Process).SpawnThenTransition (*Process).SpawnThenTransitionNP
+//@ owned Process
